@@ -120,7 +120,7 @@ func firstAssertionLike(a *atk) *etree.Element {
 	return nil
 }
 
-var wrapperTags = [][3]string{{"saml", sim.NSA, "Advice"}, {"samlp", sim.NSP, "Extensions"}, {"ds", sim.NSDS, "Object"}, {"x", "urn:x", "Wrapper"}, {"saml", sim.NSA, "Subject"}, {"saml", sim.NSA, "AttributeStatement"}}
+var wrapperTags = [][3]string{{"samlp", sim.NSP, "Response"}, {"x", "urn:x", "Response"}, {"saml", sim.NSA, "Assertion"}, {"saml", sim.NSA, "Advice"}, {"samlp", sim.NSP, "Extensions"}, {"ds", sim.NSDS, "Object"}, {"x", "urn:x", "Wrapper"}, {"saml", sim.NSA, "Subject"}, {"saml", sim.NSA, "AttributeStatement"}}
 
 func c01Transformers() []transformer {
 	return []transformer{
